@@ -17,8 +17,9 @@ META = {
                    'the response states.',
     'outside': ['interleavings finer than the recorded events (bytecode-level races inside one critical section)',
                 'code paths the recorded run did not take (templates are recorded per handler x transaction kind on the 70041 MDIB)',
-                'lazy serialisation of live state objects by the HTTP layer after the handler returned (handlers serialise before '
-                'returning; state transactions replace table objects instead of mutating them)',
+                'writes to the CONTENT of objects are invisible to the event templates; that state / context-state table objects are '
+                'replaced and never modified in place is decided separately by the C07.immutable.* CrossHair obligations; '
+                'descriptor objects ARE updated in place, but GetMdib / GetMdDescription serialise them inside the lock',
                 'more than 2 writers / 1 reader per obligation'],
 }
 
@@ -39,8 +40,25 @@ STUBS = ['provider = tests.mockstuff.SomeDevice (70041_MDIB_Final.xml) with Mock
          'accesses)', 'the capture is at lock-acquire/release + shared-variable granularity']
 
 
+IMM = ['metric', 'alert', 'component', 'context_update', 'context_new', 'set_location', 'descriptor_update_implicit_state',
+       'descriptor_update_with_state', 'create_child', 'delete_child', 'entity_descriptor_update', 'context_descriptor_update',
+       'operational']
+
+
 def obligations(tier):
+    from harness.mdibkit import STUBS as KIT_STUBS
     obs = []
+    for i, n in enumerate(IMM):
+        obs.append(Ob(f'C07.immutable.{n}', 'harness.C07', 'table_state_objects_immutable', bind={'kind': i},
+                      timeout=90 if tier == 'quick' else 600, stubs=KIT_STUBS,
+                      functions=['sdc11073.mdib.transactions._TransactionBase._handle_state_updates',
+                                 'sdc11073.mdib.transactions.DescriptorTransaction._update_corresponding_state',
+                                 'sdc11073.mdib.transactions.DescriptorTransaction.process_transaction',
+                                 'sdc11073.mdib.transactions.ContextStateTransaction.disassociate_all'],
+                      bounds='1 transaction of this kind; symbolic dv, sv, mv in N, str <= 2; 15-descriptor kit MDIB',
+                      claim='every state / context-state object that was in a table before the commit still has exactly its old '
+                            'content afterwards (transactions replace table objects, they never modify them in place) - the '
+                            'premise under which collecting references inside mdib_lock and serialising them later is a snapshot'))
     kinds = KINDS[:3] if tier == 'quick' else KINDS
     for h in HANDLERS:
         for kd in kinds:
@@ -268,9 +286,9 @@ def replay(ctx):
 
 
 MANIFEST_ENTRY = {
-    'engine': 'sched',
+    'engine': 'sched+crosshair',
     'technique': 'predictive trace analysis: event templates recorded from the real handlers/transactions + SMT (z3) over all their '
-                 'interleavings at lock granularity; sat schedules replayed with gated real threads',
+                 'interleavings at lock granularity; sat schedules replayed with gated real threads; plus CrossHair obligations that committed state objects are never modified in place',
     'text': 'For every Get handler x transaction kind the solver shows that no interleaving of the recorded lock/variable events lets a '
             'response mix two MdibVersions (unsat), or produces a schedule that is replayed on the real provider.',
     'note': 'Covers re-orderings of the recorded events only (one code path per handler/transaction kind, 70041 test MDIB), at '
